@@ -320,6 +320,15 @@ Rewrites(ns) ==
                               Mk("FRAG", 0, "VF", "", Roots.query, <<>>, <<>>, "", ""),
                               [Mk("F", 0, "f", "", "", <<Arg("a", LitVar("zz"))>>, <<>>, "", Roots.query) EXCEPT !.parent = 5] >>)) :
            r \in {"all-variable-usages-are-allowed", "all-variable-uses-defined"}}
+  \* the disallowed / undefined usage sits in a fragment reached only through another fragment
+  \cup {RW(r, "fragment-spread-by-a-fragment",
+           AppendNodes(ns, << [Mk("OP", 0, "DeepOp", "", "", <<>>, <<>>, "query", "") EXCEPT !.vdefs = IF r = "all-variable-uses-defined" THEN <<>> ELSE <<[name |-> "zz", type |-> <<"String">>, hasDefault |-> FALSE, default |-> NoLit]>>],
+                              [Mk("S", 0, "VG1", "", "", <<>>, <<>>, "", Roots.query) EXCEPT !.parent = 1],
+                              Mk("FRAG", 0, "VG1", "", Roots.query, <<>>, <<>>, "", ""),
+                              [Mk("S", 0, "VG2", "", "", <<>>, <<>>, "", Roots.query) EXCEPT !.parent = 3],
+                              Mk("FRAG", 0, "VG2", "", Roots.query, <<>>, <<>>, "", ""),
+                              [Mk("F", 0, "f", "", "", <<Arg("a", LitVar("zz"))>>, <<>>, "", Roots.query) EXCEPT !.parent = 5] >>)) :
+           r \in {"all-variable-usages-are-allowed", "all-variable-uses-defined"}}
   \* an ill-typed literal placed after a variable in the same list
   \cup {RW("values-of-correct-type", "list-element-after-variable",
            SetAt(SetAt(ns, DefOf(ns, i), [ns[DefOf(ns, i)] EXCEPT !.vdefs = Append(@, [name |-> "lv", type |-> <<"Int">>, hasDefault |-> FALSE, default |-> NoLit]), !.name = IF @ = "" THEN "Q9" ELSE @]),
